@@ -378,6 +378,7 @@ func (ty *types[K, V, E]) drainSeq(n *node) (out string) {
 		}
 	}()
 	ticks = 0
+	afterStop = false
 	s := ty.buildSeq(n, nil)
 	var got []int
 	for has := s != nil; has; has = s.Next() {
@@ -396,6 +397,7 @@ func (ty *types[K, V, E]) forEachSeq(n *node, errAt int) (out string) {
 		}
 	}()
 	ticks = 0
+	afterStop = false
 	s := ty.buildSeq(n, nil)
 	var log []int
 	var sent *visitErr
@@ -404,6 +406,7 @@ func (ty *types[K, V, E]) forEachSeq(n *node, errAt int) (out string) {
 		log = append(log, ty.e.prj(v))
 		if idx == errAt {
 			sent = &visitErr{idx}
+			afterStop = true
 			return sent
 		}
 		if len(log) > runawayLimit {
